@@ -303,6 +303,16 @@ Proof.
   intros H Hq. apply (Permutation_NoDup (Permutation_cons_append l q)). constructor; assumption.
 Qed.
 
+Lemma NoDup_map_inj_in {A B} (f : A -> B) (l : list A) :
+  (forall x y, In x l -> In y l -> f x = f y -> x = y) -> NoDup l -> NoDup (map f l).
+Proof.
+  induction l as [|a l IH]; intros Hinj Hnd; [constructor|].
+  inversion Hnd as [|? ? Ha Hnd']; subst. cbn [map]. constructor.
+  - intros Hin. apply in_map_iff in Hin as [b [E Hb]].
+    assert (b = a) by (apply Hinj; [right; exact Hb|left; reflexivity|exact E]). subst. contradiction.
+  - apply IH; [|exact Hnd']. intros x y Hx Hy. apply Hinj; right; assumption.
+Qed.
+
 Lemma add_id_nodup nodes q : NoDup nodes -> NoDup (add_id nodes q).
 Proof.
   intros H. unfold add_id. destruct (existsb (nid_eqb q) nodes) eqn:E; [exact H|].
@@ -562,13 +572,6 @@ Qed.
 
 (* ---- reading a displayed component back: the name without its marker --------------------------- *)
 
-Definition drop_last4 (c : str) : str := rev (skipn 4 (rev c)).
-Definition strip_marker (c : str) : str :=
-  if endswith c (mark_suffix MRem) then drop_last4 c
-  else if endswith c (mark_suffix MAdd) then drop_last4 c
-  else if endswith c (mark_suffix MChg) then drop_last4 c
-  else c.
-
 Lemma endswith_app_same n s : endswith (n ++ s) s = true.
 Proof. unfold endswith. rewrite rev_app_distr. apply startswith_app. Qed.
 
@@ -599,6 +602,20 @@ Proof.
     rewrite endswith_app_same. apply drop_last4_app. discriminate.
 Qed.
 
+Lemma marker_of_app n m : marker_free n = true -> marker_of (n ++ mark_suffix m) = m.
+Proof.
+  intros H. unfold marker_free in H. apply andb_true_iff in H as [H H3]. apply andb_true_iff in H as [H1 H2].
+  apply negb_true_iff in H1, H2, H3.
+  destruct m; unfold marker_of.
+  - cbn [mark_suffix] in *. rewrite app_nil_r, H1, H2, H3. reflexivity.
+  - rewrite endswith_app_same. reflexivity.
+  - rewrite (endswith_app_diff n MAdd MRem) by discriminate.
+    rewrite endswith_app_same. reflexivity.
+  - rewrite (endswith_app_diff n MChg MRem) by discriminate.
+    rewrite (endswith_app_diff n MChg MAdd) by discriminate.
+    rewrite endswith_app_same. reflexivity.
+Qed.
+
 Lemma last_in (q : list str) : q <> [] -> In (last q []) q.
 Proof.
   intros H. destruct (exists_last H) as [q' [x ->]]. rewrite last_last. apply in_or_app. right. left. reflexivity.
@@ -612,6 +629,13 @@ Proof.
   intros [Hne Hc]. split.
   - destruct n; [contradiction|discriminate].
   - intros Hin. apply in_app_or in Hin as [Hin|Hin]; [exact (Hc Hin)|exact (mark_suffix_cfree m Hin)].
+Qed.
+
+Lemma split_path_slash p :
+  p <> [] -> Forall good_name p -> split (path_name slash p) slash = [] :: p.
+Proof.
+  intros Hne HF. apply (split_path_name 47%N p Hne).
+  eapply Forall_impl; [|exact HF]. intros a [_ Ha]. exact Ha.
 Qed.
 
 Section Main.
@@ -1454,21 +1478,26 @@ Section Main.
     rewrite Hself. destruct Hin as [->|Hin].
     - rewrite npath_eqb_refl.
       assert (G : filter (fun e => npath_eqb (fst e) q) (flat_map (ch_of a) l) = []).
-      { clear IH Hnd'. induction l as [|p' l IHl]; [reflexivity|]. cbn [flat_map]. rewrite filter_app, Hself.
+      { clear IH Hnd' Hnd. revert Hp. induction l as [|p' l IHl]; intros Hp; [reflexivity|]. cbn [flat_map]. rewrite filter_app, Hself.
         rewrite npath_eqb_neq by (intros ->; apply Hp; left; reflexivity). cbn [app].
         apply IHl. intros H. apply Hp. right. exact H. }
       rewrite G. apply app_nil_r.
     - rewrite npath_eqb_neq by (intros ->; contradiction). cbn [app]. apply IH; assumption.
   Qed.
 
-  Lemma diff_attrs_keys a1 a2 :
-    map fst (diff_attrs al a1 a2)
-    = filter (fun a => negb (val_eqb (attr_val a a1) (attr_val a a2))) al.
+  Lemma diff_attrs_keys_gen a1 a2 : forall l,
+    map fst (diff_attrs l a1 a2)
+    = filter (fun a => negb (val_eqb (attr_val a a1) (attr_val a a2))) l.
   Proof.
-    unfold diff_attrs. induction al as [|a l IH]; [reflexivity|].
+    unfold diff_attrs. induction l as [|a l IH]; [reflexivity|].
     cbn [flat_map filter]. rewrite map_app, IH.
     destruct (val_eqb (attr_val a a1) (attr_val a a2)); reflexivity.
   Qed.
+
+  Lemma diff_attrs_keys a1 a2 :
+    map fst (diff_attrs al a1 a2)
+    = filter (fun a => negb (val_eqb (attr_val a a1) (attr_val a a2))) al.
+  Proof. apply diff_attrs_keys_gen. Qed.
 
   Lemma node_attrs_nodup q : NoDup (map fst (node_attrs al N1 N2 q)).
   Proof.
@@ -1501,4 +1530,539 @@ Section Main.
       destruct (val_eqb (attr_val a a1) (attr_val a a2)); reflexivity. }
     rewrite E. rewrite fold_set_kv_fresh; [reflexivity|]. cbn [map app]. apply node_attrs_nodup.
   Qed.
+
+  (* --- which nodes the rebuilt tree has ------------------------------------------------------------ *)
+
+  Lemma is_prefix_iff (q p : list str) : is_prefix q p = true <-> exists r, p = q ++ r.
+  Proof.
+    revert p. induction q as [|x q IH]; intros p; cbn [is_prefix].
+    - split; [intros _; exists p; reflexivity|reflexivity].
+    - destruct p as [|y p].
+      + split; [discriminate|]. intros [r E]. discriminate.
+      + rewrite andb_true_iff, str_eqb_eq, IH. split.
+        * intros [-> [r ->]]. exists r. reflexivity.
+        * intros [r E]. inversion E; subst. split; [reflexivity|]. exists r. reflexivity.
+  Qed.
+
+  Lemma comps_root : comps [rt] = [rt].
+  Proof.
+    cbn [comps inits map]. unfold comp1, sfx1. cbn [last]. destruct st_root as [H1 H2].
+    destruct (st [rt]); try contradiction; rewrite app_nil_r; reflexivity.
+  Qed.
+
+  Lemma keptM_in od p : In p (keptM od) <-> In p all /\ (od = false \/ marked al N1 N2 p = true).
+  Proof.
+    unfold keptM. rewrite filter_In. split; intros [Hp H]; (split; [exact Hp|]).
+    - destruct od; [right; exact H|left; reflexivity].
+    - destruct H as [->|H]; [reflexivity|]. rewrite H. apply orb_true_r.
+  Qed.
+
+  Lemma nodes_closure od :
+    keptM od <> [] ->
+    forall x, In x (grow [[rt]] (keptM od)) <->
+              exists q, In q (filter (kept al N1 N2 od) all) /\ x = comps q.
+  Proof.
+    intros Hne x. rewrite grow_in. split.
+    - intros [[<-|[]]|[p [Hp [q [Hq ->]]]]].
+      + exists [rt]. split; [|symmetry; apply comps_root]. apply filter_In. split; [apply in_all; left; exact Hrt1|].
+        unfold kept. destruct od; [|reflexivity]. cbn [negb orb].
+        destruct (keptM true) as [|p K] eqn:EK; [contradiction|].
+        assert (Hp : In p (keptM true)) by (rewrite EK; left; reflexivity).
+        apply keptM_in in Hp as [Hp [Hf|Hm]]; [discriminate|].
+        apply existsb_exists. exists p. split; [exact Hp|]. rewrite Hm, andb_true_r.
+        apply is_prefix_iff. pose proof (comps_hd p Hp) as Hh.
+        assert (Hh' : hd [] p = rt) by (apply in_all in Hp as [Hp|Hp]; [apply Hhd1|apply Hhd2]; exact Hp).
+        destruct p as [|y r]; [destruct (all_good _ Hp); contradiction|]. cbn in Hh'. subst y.
+        exists r. reflexivity.
+      + apply keptM_in in Hp as [Hp Hk]. exists q. split; [|reflexivity]. apply filter_In. split.
+        * eapply all_init_closed; eassumption.
+        * unfold kept. destruct Hk as [->|Hm]; [reflexivity|]. apply orb_true_iff. right.
+          apply existsb_exists. exists p. split; [exact Hp|]. rewrite Hm, andb_true_r.
+          apply is_prefix_iff. apply in_inits in Hq as [_ [r E]]. exists r. exact E.
+    - intros [q [Hq ->]]. apply filter_In in Hq as [Hq Hk]. right. unfold kept in Hk.
+      apply orb_true_iff in Hk as [Hk|Hk].
+      + exists q. split; [apply keptM_in; split; [exact Hq|left; destruct od; [discriminate|reflexivity]]|].
+        exists q. split; [apply in_inits_self; apply all_good; exact Hq|reflexivity].
+      + apply existsb_exists in Hk as [p [Hp Hk]]. apply andb_true_iff in Hk as [Hpre Hm].
+        exists p. split; [apply keptM_in; split; [exact Hp|right; exact Hm]|].
+        exists q. split; [|reflexivity]. apply in_inits. split; [apply all_good; exact Hq|].
+        apply is_prefix_iff. exact Hpre.
+  Qed.
+
+  Lemma kept_empty od : keptM od = [] -> filter (kept al N1 N2 od) all = [].
+  Proof.
+    intros E. destruct (filter (kept al N1 N2 od) all) as [|q l] eqn:F; [reflexivity|]. exfalso.
+    assert (Hq : In q (filter (kept al N1 N2 od) all)) by (rewrite F; left; reflexivity).
+    apply filter_In in Hq as [Hq Hk]. unfold kept in Hk. apply orb_true_iff in Hk as [Hk|Hk].
+    - assert (H : In q (keptM od)) by (apply keptM_in; split; [exact Hq|left; destruct od; [discriminate|reflexivity]]).
+      rewrite E in H. contradiction.
+    - apply existsb_exists in Hk as [p [Hp Hk]]. apply andb_true_iff in Hk as [_ Hm].
+      assert (H : In p (keptM od)) by (apply keptM_in; split; [exact Hp|right; exact Hm]).
+      rewrite E in H. contradiction.
+  Qed.
+
+  (* --- the model on the marked table meets the specification -------------------------------------- *)
+
+  Theorem diff_of_rows_spec od :
+    exists L, diff_of_rows slash (map jr_marked all) od al
+              = Ret (match L with [] => None | _ => Some L end)
+              /\ Permutation L (expected slash al N1 N2 od).
+  Proof.
+    unfold diff_of_rows. rewrite changes_abs. fold chpaths. rewrite kept_rows_abs.
+    destruct (keptM od) as [|p0 K0] eqn:EK.
+    - exists []. split; [reflexivity|]. unfold expected. rewrite (kept_empty od EK). constructor.
+    - assert (Hne : keptM od <> []) by (rewrite EK; discriminate).
+      rewrite <- EK. destruct (map mp (keptM od)) as [|s0 ss] eqn:EM.
+      { exfalso. apply map_eq_nil in EM. contradiction. }
+      rewrite <- EM. clear s0 ss EM.
+      assert (Hincl : incl (keptM od) all) by (intros p Hp; apply keptM_in in Hp; apply Hp).
+      rewrite (rebuild_abs (keptM od) Hne Hincl).
+      set (nodes := grow [[rt]] (keptM od)).
+      assert (Hnodes : forall p, In p all -> st p = MChg -> forall q, In q (inits p) -> In (comps q) nodes).
+      { intros p Hp Hs q Hq. apply grow_in. right. exists p. split.
+        - apply keptM_in. split; [exact Hp|right]. unfold marked. rewrite Hs. reflexivity.
+        - exists q. split; [exact Hq|reflexivity]. }
+      rewrite (apply_changes_abs chsA nodes []).
+      2:{ intros e He. destruct (chsA_changed e He) as [Hp Hs]. split; [exact Hp|]. apply Hnodes; assumption. }
+      cbn [app].
+      destruct (apply_renames_abs (sort_desc chpaths) nodes []) as [rs' [Er Hrs]].
+      { intros k Hk. apply (proj1 (sort_desc_in _ _)) in Hk. apply in_chpaths_inv in Hk as [p [Hp [Hs ->]]].
+        exists p. repeat split; try assumption. apply Hnodes; assumption. }
+      rewrite Er. cbn [app].
+      exists (map (fun q => (final_path rs' q, attrs_of (map (fun e => (comps (fst e), snd e)) chsA) q)) nodes).
+      assert (Hnn : In [rt] nodes) by (apply grow_in; left; left; reflexivity).
+      split.
+      { destruct nodes as [|n0 ns]; [contradiction|]. reflexivity. }
+      fold storeA. unfold expected.
+      set (C := filter (kept al N1 N2 od) all).
+      assert (HP : Permutation nodes (map comps C)).
+      { apply NoDup_Permutation.
+        - apply grow_nodup. constructor; [intros []|constructor].
+        - apply NoDup_map_inj_in.
+          + intros p q Hp Hq E. apply filter_In in Hp as [Hp _]. apply filter_In in Hq as [Hq _].
+            apply comps_inj; assumption.
+          + apply NoDup_filter. apply all_nodup.
+        - intros x. unfold nodes. rewrite (nodes_closure od Hne). rewrite in_map_iff.
+          split; intros [q [H1 H2]]; exists q; split; auto. }
+      apply (Permutation_map (fun q => (final_path rs' q, attrs_of storeA q))) in HP.
+      rewrite map_map in HP. eapply Permutation_trans; [exact HP|].
+      apply Permutation_refl'. apply map_ext_in. intros q Hq. apply filter_In in Hq as [Hq _].
+      rewrite (final_path_comps rs' (sort_desc chpaths) q Hrs (fun k => sort_desc_in chpaths k) Hq).
+      rewrite attrs_of_comps by exact Hq. reflexivity.
+  Qed.
+
+  (* --- reading the expected nodes back -------------------------------------------------------------- *)
+
+  Lemma shown_good q : In q all -> good_name (shown_name al N1 N2 q).
+  Proof.
+    intros Hq. unfold shown_name. apply good_name_marked. destruct (all_good _ Hq) as [Hne HF].
+    rewrite Forall_forall in HF. apply HF. apply last_in. exact Hne.
+  Qed.
+
+  Lemma read_path_shown p :
+    In p all ->
+    read_path slash (shown_path slash al N1 N2 p) = map (fun q => (last q [], st q)) (inits p).
+  Proof.
+    intros Hp. unfold read_path, shown_path. fold (path_name slash (map (shown_name al N1 N2) (inits p))).
+    rewrite split_path_slash.
+    - cbn [tl]. rewrite map_map. apply map_ext_in. intros q Hq. unfold shown_name.
+      rewrite strip_marker_app, marker_of_app by (eapply init_marker_free; eassumption). reflexivity.
+    - destruct p; [destruct (all_good _ Hp); contradiction|discriminate].
+    - apply Forall_forall. intros c Hc. apply in_map_iff in Hc as [q [<- Hq]].
+      apply (shown_good q). eapply all_init_closed; eassumption.
+  Qed.
+
+  Lemma read_names_shown p : In p all -> read_names slash (shown_path slash al N1 N2 p) = p.
+  Proof.
+    intros Hp. unfold read_names. rewrite read_path_shown by exact Hp. rewrite map_map. cbn [fst].
+    apply map_last_inits.
+  Qed.
+
+  Lemma read_mark_shown p : In p all -> read_mark slash (shown_path slash al N1 N2 p) = st p.
+  Proof.
+    intros Hp. unfold read_mark. rewrite read_path_shown by exact Hp. rewrite map_map. cbn [snd].
+    apply comps_last. apply all_good. exact Hp.
+  Qed.
+
+  Lemma expected_in od s at_ :
+    In (s, at_) (expected slash al N1 N2 od) <->
+    exists p, In p all /\ kept al N1 N2 od p = true /\ s = shown_path slash al N1 N2 p /\ at_ = node_attrs al N1 N2 p.
+  Proof.
+    unfold expected. rewrite in_map_iff. split.
+    - intros [p [E Hp]]. apply filter_In in Hp as [Hp Hk]. inversion E; subst. exists p. auto.
+    - intros [p [Hp [Hk [-> ->]]]]. exists p. split; [reflexivity|]. apply filter_In. auto.
+  Qed.
+
+  Lemma expected_names_nodup od : NoDup (map (fun n => read_names slash (fst n)) (expected slash al N1 N2 od)).
+  Proof.
+    unfold expected. rewrite map_map. cbn [fst].
+    rewrite (map_ext_in _ (fun p => p)).
+    - rewrite map_id. apply NoDup_filter. apply all_nodup.
+    - intros p Hp. apply filter_In in Hp as [Hp _]. apply read_names_shown. exact Hp.
+  Qed.
+
+  Lemma is_prefix_refl (p : list str) : is_prefix p p = true.
+  Proof. apply is_prefix_iff. exists []. rewrite app_nil_r. reflexivity. Qed.
+
+  Lemma kept_marked od p : In p all -> st p <> MSame -> kept al N1 N2 od p = true.
+  Proof.
+    intros Hp Hs. unfold kept. apply orb_true_iff. right. apply existsb_exists. exists p. split; [exact Hp|].
+    rewrite is_prefix_refl. unfold marked. destruct (st p); [contradiction|reflexivity..].
+  Qed.
+
+  Lemma kept_only_diff p :
+    kept al N1 N2 true p = true <-> exists q r, In q all /\ st q <> MSame /\ q = p ++ r.
+  Proof.
+    unfold kept. cbn [negb orb]. rewrite existsb_exists. split.
+    - intros [q [Hq H]]. apply andb_true_iff in H as [Hpre Hm]. apply is_prefix_iff in Hpre as [r E].
+      exists q, r. repeat split; try assumption. intros Es. unfold marked in Hm. rewrite Es in Hm. discriminate.
+    - intros [q [r [Hq [Hs E]]]]. exists q. split; [exact Hq|]. apply andb_true_iff. split.
+      + apply is_prefix_iff. exists r. exact E.
+      + unfold marked. destruct (st q); [contradiction|reflexivity..].
+  Qed.
+
+  Lemma st_same_iff p :
+    In p all ->
+    (st p = MSame <->
+     In p (map fst N1) /\ In p (map fst N2) /\
+     forall a1 a2, In (p, a1) N1 -> In (p, a2) N2 -> diff_attrs al a1 a2 = []).
+  Proof.
+    intros Hp. split.
+    - intros Es. destruct (st_both p Hp (or_introl Es)) as [H1 H2]. repeat split; try assumption.
+      intros a1 a2 I1 I2. apply (lookup_nodup p a1 N1 HND1) in I1. apply (lookup_nodup p a2 N2 HND2) in I2.
+      unfold status in Es. rewrite I1, I2 in Es. destruct (diff_attrs al a1 a2); [reflexivity|discriminate].
+    - intros [H1 [H2 Hd]]. apply lookup_some_iff in H1 as [a1 E1]. apply lookup_some_iff in H2 as [a2 E2].
+      unfold status. rewrite E1, E2. rewrite (Hd a1 a2); [reflexivity|apply lookup_some_in; exact E1|apply lookup_some_in; exact E2].
+  Qed.
+
+  Lemma st_chg_iff p :
+    st p = MChg <-> exists a1 a2, In (p, a1) N1 /\ In (p, a2) N2 /\ diff_attrs al a1 a2 <> [].
+  Proof.
+    rewrite st_chg. split; intros [a1 [a2 [H1 [H2 Hd]]]]; exists a1, a2; repeat split; try assumption.
+    - apply lookup_some_in. exact H1.
+    - apply lookup_some_in. exact H2.
+    - apply lookup_nodup; assumption.
+    - apply lookup_nodup; assumption.
+  Qed.
+
+  Lemma node_attrs_chg p a1 a2 :
+    In (p, a1) N1 -> In (p, a2) N2 -> node_attrs al N1 N2 p = diff_attrs al a1 a2.
+  Proof.
+    intros H1 H2. unfold node_attrs. rewrite (lookup_nodup p a1 N1 HND1 H1), (lookup_nodup p a2 N2 HND2 H2). reflexivity.
+  Qed.
+
+  Lemma node_attrs_unmarked p : st p <> MChg -> node_attrs al N1 N2 p = [].
+  Proof.
+    unfold status, node_attrs. destruct (lookup p N1) as [a1|]; [|reflexivity].
+    destruct (lookup p N2) as [a2|]; [|reflexivity].
+    destruct (diff_attrs al a1 a2); [reflexivity|]. intros H. exfalso. apply H. reflexivity.
+  Qed.
 End Main.
+
+(* ================================================================================================ *)
+(* 5. from trees to node lists: the guards of the property                                            *)
+
+Lemma name_ok_good n : name_ok slash n = true -> good_name n.
+Proof.
+  unfold name_ok. intros H. apply andb_true_iff in H as [H H3]. apply andb_true_iff in H as [H1 H2].
+  split.
+  - destruct n; [discriminate|discriminate].
+  - apply negb_true_iff in H3. apply cfree_contains. exact H3.
+Qed.
+
+Lemma paths_good t p :
+  forallb (name_ok slash) (all_names t) = true -> In p (map fst (nodes_of t)) -> good_path p.
+Proof.
+  intros Hall Hp. split.
+  - destruct (nodes_from_form t [] p Hp) as [r ->]. discriminate.
+  - apply Forall_forall. intros x Hx. apply name_ok_good.
+    rewrite forallb_forall in Hall. apply Hall. eapply nodes_of_names; eassumption.
+Qed.
+
+Lemma paths_marker_free t p :
+  forallb marker_free (all_names t) = true -> In p (map fst (nodes_of t)) ->
+  Forall (fun n => marker_free n = true) p.
+Proof.
+  intros Hall Hp. apply Forall_forall. intros x Hx.
+  rewrite forallb_forall in Hall. apply Hall. eapply nodes_of_names; eassumption.
+Qed.
+
+Section Trees.
+  Variables (t1 t2 : tree) (al : list str).
+  Hypothesis Hdom : domain_C15 slash t1 t2 al = true.
+
+  Let N1 := nodes_of t1.
+  Let N2 := nodes_of t2.
+  Let rt := tname t1.
+
+  Lemma dom_parts :
+    str_eqb (tname t1) (tname t2) = true /\
+    forallb (name_ok slash) (all_names t1) = true /\ forallb (name_ok slash) (all_names t2) = true /\
+    siblings_distinct t1 = true /\ siblings_distinct t2 = true /\ nodup_str al = true.
+  Proof.
+    unfold domain_C15 in Hdom. repeat (apply andb_true_iff in Hdom as [Hdom ?]). tauto.
+  Qed.
+
+  Lemma T_HND1 : NoDup (map fst N1). Proof. apply nodes_of_nodup. apply dom_parts. Qed.
+  Lemma T_HND2 : NoDup (map fst N2). Proof. apply nodes_of_nodup. apply dom_parts. Qed.
+  Lemma T_good1 : forall p, In p (map fst N1) -> good_path p.
+  Proof. intros p. apply paths_good. apply dom_parts. Qed.
+  Lemma T_good2 : forall p, In p (map fst N2) -> good_path p.
+  Proof. intros p. apply paths_good. apply dom_parts. Qed.
+  Lemma T_pc1 : forall q x, q <> [] -> In (q ++ [x]) (map fst N1) -> In q (map fst N1).
+  Proof. intros q x. apply nodes_of_prefix_closed. Qed.
+  Lemma T_pc2 : forall q x, q <> [] -> In (q ++ [x]) (map fst N2) -> In q (map fst N2).
+  Proof. intros q x. apply nodes_of_prefix_closed. Qed.
+  Lemma T_rt1 : In [rt] (map fst N1). Proof. apply nodes_of_root. Qed.
+  Lemma T_rt2 : In [rt] (map fst N2).
+  Proof. unfold rt. destruct dom_parts as [E _]. apply str_eqb_eq in E. rewrite E. apply nodes_of_root. Qed.
+  Lemma T_hd1 : forall p, In p (map fst N1) -> hd [] p = rt. Proof. intros p. apply nodes_of_hd. Qed.
+  Lemma T_hd2 : forall p, In p (map fst N2) -> hd [] p = rt.
+  Proof. intros p Hp. unfold rt. destruct dom_parts as [E _]. apply str_eqb_eq in E. rewrite E. apply nodes_of_hd. exact Hp. Qed.
+  Lemma T_al : NoDup al. Proof. apply nodup_str_NoDup. apply dom_parts. Qed.
+
+  Lemma marked_rows_trees :
+    marked_rows slash al t1 t2 = map (jr_marked al N1 N2) (all_paths N1 N2).
+  Proof.
+    unfold marked_rows. rewrite !table_nodes. fold N1 N2.
+    change (map (fun _ : str => VNone) al) with (nn al).
+    rewrite (merge_abs al N1 N2 T_HND1 T_HND2 T_good1 T_good2).
+    apply (marked_rows_abs al N1 N2 T_good1 T_good2).
+  Qed.
+
+  Hypothesis Hlook : lookalike_free t1 t2 = true.
+
+  Lemma T_look : forall p, In p (all_paths N1 N2) -> Forall (fun n => marker_free n = true) p.
+  Proof.
+    intros p Hp. unfold lookalike_free in Hlook. apply andb_true_iff in Hlook as [L1 L2].
+    apply in_all in Hp as [Hp|Hp]; [apply (paths_marker_free t1)|apply (paths_marker_free t2)]; assumption.
+  Qed.
+
+  (* the model's answer is, up to the order of the nodes, the answer the specification describes *)
+  Theorem get_tree_diff_spec od :
+    exists L, get_tree_diff slash t1 t2 od al = Ret (match L with [] => None | _ => Some L end)
+              /\ Permutation L (expected slash al N1 N2 od).
+  Proof.
+    unfold get_tree_diff. rewrite marked_rows_trees.
+    apply (diff_of_rows_spec al N1 N2 rt T_HND1 T_HND2 T_good1 T_good2 T_pc1 T_pc2 T_rt1 T_rt2 T_hd1 T_hd2 T_al T_look).
+  Qed.
+End Trees.
+
+(* ================================================================================================ *)
+(* 6. the clauses of the property, stated on the returned path strings                                *)
+
+Lemma val_eqb_refl v : val_eqb v v = true.
+Proof.
+  destruct v; cbn; try reflexivity.
+  - apply Z.eqb_refl.
+  - apply str_eqb_refl.
+  - apply eqb_reflx.
+  - apply Z.eqb_refl.
+Qed.
+
+Lemma diff_attrs_same al a : diff_attrs al a a = [].
+Proof.
+  unfold diff_attrs. induction al as [|k l IH]; [reflexivity|].
+  cbn [flat_map]. rewrite val_eqb_refl. exact IH.
+Qed.
+
+Section Clauses.
+  Variables (t1 t2 : tree) (al : list str).
+  Hypothesis Hdom : domain_C15 slash t1 t2 al = true.
+  Hypothesis Hlook : lookalike_free t1 t2 = true.
+
+  Notation N1 := (nodes_of t1).
+  Notation N2 := (nodes_of t2).
+  Notation P1 := (map fst (nodes_of t1)).
+  Notation P2 := (map fst (nodes_of t2)).
+  Notation all := (all_paths (nodes_of t1) (nodes_of t2)).
+  Notation st := (status al (nodes_of t1) (nodes_of t2)).
+
+  Ltac facts :=
+    pose proof (T_HND1 t1 t2 al Hdom) as F_nd1; pose proof (T_HND2 t1 t2 al Hdom) as F_nd2;
+    pose proof (T_good1 t1 t2 al Hdom) as F_g1; pose proof (T_good2 t1 t2 al Hdom) as F_g2;
+    pose proof (T_pc1 t1) as F_pc1; pose proof (T_pc2 t2) as F_pc2;
+    pose proof (T_look t1 t2 Hlook) as F_look; pose proof (T_al t1 t2 al Hdom) as F_al.
+
+  Lemma in_all_iff p : In p all <-> In p P1 \/ In p P2.
+  Proof. apply in_all. Qed.
+
+  Section Output.
+    Variables (od : bool) (L : list Diff.onode).
+    Hypothesis Hout : get_tree_diff slash t1 t2 od al = Ret (Some L).
+
+    Lemma out_perm : Permutation L (expected slash al N1 N2 od).
+    Proof.
+      destruct (get_tree_diff_spec t1 t2 al Hdom Hlook od) as [L' [E HP]]. rewrite Hout in E.
+      destruct L' as [|x l]; [discriminate|]. inversion E; subst. exact HP.
+    Qed.
+
+    Lemma out_in s at_ :
+      In (s, at_) L <->
+      exists p, In p all /\ kept al N1 N2 od p = true /\
+                s = shown_path slash al N1 N2 p /\ at_ = node_attrs al N1 N2 p.
+    Proof.
+      rewrite <- expected_in. split; apply Permutation_in; [|apply Permutation_sym]; apply out_perm.
+    Qed.
+
+    Lemma out_of_path p :
+      In p all -> kept al N1 N2 od p = true ->
+      exists s at_, In (s, at_) L /\ read_names slash s = p /\ read_mark slash s = st p
+                    /\ at_ = node_attrs al N1 N2 p.
+    Proof.
+      intros Hp Hk. facts. exists (shown_path slash al N1 N2 p), (node_attrs al N1 N2 p). split.
+      - apply out_in. exists p. auto.
+      - split; [eapply read_names_shown; eassumption|]. split; [eapply read_mark_shown; eassumption|reflexivity].
+    Qed.
+
+    Lemma out_to_path s at_ :
+      In (s, at_) L ->
+      In (read_names slash s) all /\ kept al N1 N2 od (read_names slash s) = true /\
+      read_mark slash s = st (read_names slash s) /\
+      read_path slash s = map (fun q => (last q [], st q)) (inits (read_names slash s)) /\
+      at_ = node_attrs al N1 N2 (read_names slash s).
+    Proof.
+      intros Hin. facts. apply out_in in Hin as [p [Hp [Hk [-> ->]]]].
+      assert (En : read_names slash (shown_path slash al N1 N2 p) = p) by (eapply read_names_shown; eassumption).
+      rewrite En. repeat split; try assumption.
+      - eapply read_mark_shown; eassumption.
+      - eapply read_path_shown; eassumption.
+    Qed.
+
+    (* (-) marks exactly the paths of the first tree that are not paths of the second *)
+    Theorem removed_exact p :
+      (In p P1 /\ ~ In p P2) <->
+      exists s at_, In (s, at_) L /\ read_names slash s = p /\ read_mark slash s = MRem.
+    Proof.
+      split.
+      - intros H. assert (Es : st p = MRem) by (apply st_rem; exact H).
+        destruct (out_of_path p) as [s [at_ [Hin [En [Em _]]]]].
+        + apply in_all_iff. left. apply H.
+        + apply kept_marked; [apply in_all_iff; left; apply H|rewrite Es; discriminate].
+        + exists s, at_. rewrite Em. auto.
+      - intros [s [at_ [Hin [En Em]]]]. apply out_to_path in Hin as [_ [_ [E _]]].
+        rewrite En, Em in E. symmetry in E. apply st_rem in E. exact E.
+    Qed.
+
+    (* (+) marks exactly the paths of the second tree that are not paths of the first *)
+    Theorem added_exact p :
+      (~ In p P1 /\ In p P2) <->
+      exists s at_, In (s, at_) L /\ read_names slash s = p /\ read_mark slash s = MAdd.
+    Proof.
+      split.
+      - intros H. assert (Es : st p = MAdd) by (apply st_add; exact H).
+        destruct (out_of_path p) as [s [at_ [Hin [En [Em _]]]]].
+        + apply in_all_iff. right. apply H.
+        + apply kept_marked; [apply in_all_iff; right; apply H|rewrite Es; discriminate].
+        + exists s, at_. rewrite Em. auto.
+      - intros [s [at_ [Hin [En Em]]]]. apply out_to_path in Hin as [_ [_ [E _]]].
+        rewrite En, Em in E. symmetry in E. apply st_add in E. exact E.
+    Qed.
+
+    (* (~) marks exactly the common paths on which a listed attribute differs *)
+    Theorem changed_exact p :
+      (exists a1 a2, In (p, a1) N1 /\ In (p, a2) N2 /\ diff_attrs al a1 a2 <> []) <->
+      exists s at_, In (s, at_) L /\ read_names slash s = p /\ read_mark slash s = MChg.
+    Proof.
+      facts. split.
+      - intros H. assert (Es : st p = MChg) by (eapply st_chg_iff; eassumption).
+        destruct H as [a1 [a2 [I1 _]]].
+        assert (Hp : In p all) by (apply in_all_iff; left; apply (in_map fst) in I1; exact I1).
+        destruct (out_of_path p Hp) as [s [at_ [Hin [En [Em _]]]]].
+        + apply kept_marked; [exact Hp|rewrite Es; discriminate].
+        + exists s, at_. rewrite Em. auto.
+      - intros [s [at_ [Hin [En Em]]]]. apply out_to_path in Hin as [_ [_ [E _]]].
+        rewrite En, Em in E. symmetry in E. eapply st_chg_iff in E; eassumption.
+    Qed.
+
+    (* ... and such a node carries exactly the listed attributes that differ, with both values *)
+    Theorem changed_values s at_ :
+      In (s, at_) L -> read_mark slash s = MChg ->
+      exists a1 a2, In (read_names slash s, a1) N1 /\ In (read_names slash s, a2) N2 /\
+                    at_ = diff_attrs al a1 a2.
+    Proof.
+      intros Hin Em. facts. apply out_to_path in Hin as [_ [_ [E [_ ->]]]]. rewrite Em in E. symmetry in E.
+      pose proof E as E'. eapply st_chg_iff in E' as [a1 [a2 [I1 [I2 _]]]]; try eassumption.
+      exists a1, a2. repeat split; try assumption. eapply node_attrs_chg; eassumption.
+    Qed.
+
+    (* every returned node is a path of one of the trees; every component of its displayed path
+       carries exactly the mark of the node it denotes (so nothing else is renamed); nodes that are
+       not marked (~) carry no attribute *)
+    Theorem others_untouched s at_ :
+      In (s, at_) L ->
+      (In (read_names slash s) P1 \/ In (read_names slash s) P2) /\
+      read_path slash s = map (fun q => (last q [], st q)) (inits (read_names slash s)) /\
+      (read_mark slash s <> MChg -> at_ = []).
+    Proof.
+      intros Hin. apply out_to_path in Hin as [Hp [_ [Em [Er ->]]]].
+      split; [apply in_all_iff; exact Hp|]. split; [exact Er|].
+      intros Hm. apply node_attrs_unmarked. rewrite <- Em. exact Hm.
+    Qed.
+
+    (* no path is returned twice *)
+    Theorem no_duplicates : NoDup (map (fun n => read_names slash (fst n)) L).
+    Proof.
+      facts. eapply Permutation_NoDup.
+      - apply Permutation_sym. apply Permutation_map. apply out_perm.
+      - eapply expected_names_nodup; eassumption.
+    Qed.
+
+    (* without only_diff every path of either tree is returned *)
+    Theorem nothing_dropped p :
+      od = false -> In p P1 \/ In p P2 -> exists s at_, In (s, at_) L /\ read_names slash s = p.
+    Proof.
+      intros Hod Hp. destruct (out_of_path p) as [s [at_ [Hin [En _]]]].
+      - apply in_all_iff. exact Hp.
+      - unfold kept. rewrite Hod. reflexivity.
+      - exists s, at_. auto.
+    Qed.
+
+    (* with only_diff the returned paths are exactly the marked paths and their ancestors *)
+    Theorem only_diff_ancestors p :
+      od = true ->
+      ((exists s at_, In (s, at_) L /\ read_names slash s = p) <->
+       (p <> [] /\ exists q r, (In q P1 \/ In q P2) /\ st q <> MSame /\ q = p ++ r)).
+    Proof.
+      intros Hod. facts. split.
+      - intros [s [at_ [Hin En]]]. apply out_to_path in Hin as [Hp [Hk _]]. rewrite En in Hp, Hk.
+        rewrite Hod in Hk. apply kept_only_diff in Hk as [q [r [Hq [Hs E]]]].
+        split; [apply (all_good N1 N2 F_g1 F_g2 p Hp)|]. exists q, r. split; [apply in_all_iff; exact Hq|auto].
+      - intros [Hne [q [r [Hq [Hs E]]]]]. apply in_all_iff in Hq.
+        assert (Hp : In p all).
+        { apply (all_init_closed N1 N2 F_pc1 F_pc2 q p Hq). apply in_inits. split; [exact Hne|]. exists r. exact E. }
+        destruct (out_of_path p Hp) as [s [at_ [Hin [En _]]]].
+        + rewrite Hod. apply kept_only_diff. exists q, r. auto.
+        + exists s, at_. auto.
+    Qed.
+  End Output.
+
+  (* trees with the same paths and no difference in a listed attribute: no diff *)
+  Theorem identical_none :
+    (forall p, In p P1 <-> In p P2) ->
+    (forall p a1 a2, In (p, a1) N1 -> In (p, a2) N2 -> diff_attrs al a1 a2 = []) ->
+    get_tree_diff slash t1 t2 true al = Ret None.
+  Proof.
+    intros Hsame Hattr. facts.
+    destruct (get_tree_diff_spec t1 t2 al Hdom Hlook true) as [L' [E HP]].
+    assert (Hexp : expected slash al N1 N2 true = []).
+    { unfold expected. destruct (filter (kept al N1 N2 true) all) as [|p l] eqn:F; [reflexivity|]. exfalso.
+      assert (Hp : In p (filter (kept al N1 N2 true) all)) by (rewrite F; left; reflexivity).
+      apply filter_In in Hp as [Hp Hk]. apply kept_only_diff in Hk as [q [r [Hq [Hs _]]]].
+      apply Hs. eapply st_same_iff; try eassumption.
+      apply in_all_iff in Hq. assert (H1 : In q P1) by (destruct Hq as [Hq|Hq]; [exact Hq|apply Hsame; exact Hq]).
+      repeat split; [exact H1|apply Hsame; exact H1|]. intros a1 a2. apply Hattr. }
+    rewrite Hexp in HP. apply Permutation_sym, Permutation_nil in HP. subst. exact E.
+  Qed.
+End Clauses.
+
+Theorem same_tree_none t al :
+  domain_C15 slash t t al = true -> lookalike_free t t = true ->
+  get_tree_diff slash t t true al = Ret None.
+Proof.
+  intros Hdom Hlook. apply identical_none; try assumption.
+  - intros p. tauto.
+  - intros p a1 a2 H1 H2. pose proof (T_HND1 t t al Hdom) as Hnd.
+    apply (lookup_nodup p a1 _ Hnd) in H1. apply (lookup_nodup p a2 _ Hnd) in H2.
+    rewrite H1 in H2. inversion H2; subst. apply diff_attrs_same.
+Qed.
